@@ -51,7 +51,7 @@ func sameMessage(env *codecEnv, a, b protoreflect.Message) (bool, string, error)
 	if e1 != nil {
 		return false, "", e1
 	}
-	n2, e2 := normMessage(env.model, b, env.decodeAny)
+	n2, e2 := normObserved(env.model, b, env.decodeAny)
 	if e2 != nil {
 		return false, "any-undecodable", nil
 	}
